@@ -252,4 +252,166 @@ theorem getK_delAsc (k k' : Nat) (l : List Ent) (h : AscSorted l) :
           simp [h3, this]
         · simp [h3, h1]
 
+/-! ### further primitives used by `section_set_refines` -/
+
+theorem getK_eq_none_iff (k : Nat) (l : List Ent) : getK k l = none ↔ k ∉ keys l := by
+  unfold getK keys
+  rw [List.find?_eq_none]
+  simp
+
+theorem keys_delAsc (k : Nat) (l : List Ent) : keys (delAsc k l) = keys l := by
+  induction l with
+  | nil => rfl
+  | cons e rest ih =>
+    unfold delAsc
+    by_cases h1 : e.key = k
+    · simp only [h1, if_true, keys, List.map_cons]; rw [← h1]; congr 1; split <;> simp [h1]
+    · by_cases h2 : e.key > k
+      · simp [h1, h2]
+      · simp only [h1, h2, if_false]; simp only [keys, List.map_cons] at ih ⊢; rw [ih]
+
+theorem mem_keys_setAsc (n : Ent) (l : List Ent) (x : Nat) :
+    x ∈ keys (setAsc n l) ↔ x = n.key ∨ x ∈ keys l := by
+  induction l with
+  | nil => simp [setAsc, keys]
+  | cons e rest ih =>
+    unfold setAsc
+    by_cases h1 : e.key = n.key
+    · simp only [h1, if_true, keys, List.map_cons, List.mem_cons]
+      constructor
+      · intro h; rcases h with h | h
+        · left; exact h
+        · right; right; exact h
+      · intro h; rcases h with h | h | h
+        · left; exact h
+        · left; exact h
+        · right; exact h
+    · by_cases h2 : e.key > n.key
+      · simp [h1, h2, keys]
+      · simp only [h1, h2, if_false, keys, List.map_cons, List.mem_cons]
+        simp only [keys] at ih; rw [ih]
+        constructor <;> (intro h; rcases h with h | h | h <;> simp [h])
+
+theorem ascSorted_setAsc (n : Ent) (l : List Ent) (h : AscSorted l) : AscSorted (setAsc n l) := by
+  induction l with
+  | nil => simp [setAsc, AscSorted, keys]
+  | cons e rest ih =>
+    have hs : AscSorted rest := (List.pairwise_cons.mp h).2
+    have hlt : ∀ x ∈ keys rest, e.key < x := (List.pairwise_cons.mp h).1
+    unfold setAsc
+    by_cases h1 : e.key = n.key
+    · rw [if_pos h1]
+      exact h
+    · by_cases h2 : e.key > n.key
+      · simp only [h1, h2, if_true, if_false]
+        unfold AscSorted; simp only [keys, List.map_cons]
+        apply List.pairwise_cons.mpr
+        refine ⟨?_, h⟩
+        intro x hx
+        simp only [List.mem_cons] at hx
+        rcases hx with hx | hx
+        · omega
+        · have := hlt x hx; omega
+      · simp only [h1, h2, if_false]
+        unfold AscSorted; simp only [keys, List.map_cons]
+        apply List.pairwise_cons.mpr
+        refine ⟨?_, ih hs⟩
+        intro x hx
+        rcases (mem_keys_setAsc n rest x).mp hx with hx | hx
+        · omega
+        · exact hlt x hx
+
+theorem length_insertDesc (n : Ent) (l : List Ent) : (insertDesc n l).length = l.length + 1 := by
+  induction l with
+  | nil => rfl
+  | cons e rest ih =>
+    unfold insertDesc
+    split
+    · simp [ih]
+    · simp
+
+theorem length_updDesc (k : Nat) (f : Ent → Ent) (l : List Ent) : (updDesc k f l).length = l.length := by
+  induction l with
+  | nil => rfl
+  | cons e rest ih =>
+    unfold updDesc
+    split
+    · simp
+    · split
+      · rfl
+      · simp [ih]
+
+/-- the first `m` keys after an in-window insertion are the new key or among the first `m` old keys -/
+theorem mem_take_insertDesc (n : Ent) (l : List Ent) (m x : Nat)
+    (hx : x ∈ (keys (insertDesc n l)).take m) : x = n.key ∨ x ∈ (keys l).take m := by
+  induction l generalizing m with
+  | nil =>
+    simp only [insertDesc, keys, List.map_cons, List.map_nil] at hx
+    left
+    have := List.mem_of_mem_take hx
+    simpa using this
+  | cons e rest ih =>
+    unfold insertDesc at hx
+    by_cases h1 : e.key > n.key
+    · simp only [h1, if_true, keys, List.map_cons] at hx
+      cases m with
+      | zero => simp at hx
+      | succ m =>
+        simp only [List.take_succ_cons, List.mem_cons] at hx
+        rcases hx with hx | hx
+        · right; simp [keys, hx]
+        · rcases ih m hx with h | h
+          · left; exact h
+          · right; simp only [keys, List.map_cons, List.take_succ_cons, List.mem_cons]; right; exact h
+    · simp only [h1, if_false, keys, List.map_cons] at hx
+      cases m with
+      | zero => simp at hx
+      | succ m =>
+        simp only [List.take_succ_cons, List.mem_cons] at hx
+        rcases hx with hx | hx
+        · left; exact hx
+        · right
+          have hsub : (List.take m (e.key :: List.map (·.key) rest)) ⊆ (List.take (m+1) (e.key :: List.map (·.key) rest)) :=
+            (List.take_subset_take_left _ (Nat.le_succ m))
+          exact hsub hx
+
+theorem getD_eq_get (L : List Nat) (m : Nat) (hm : m < L.length) : L.getD m 0 = L[m] := by
+  rw [List.getD_eq_getElem?_getD, List.getElem?_eq_getElem hm]; rfl
+
+/-- in a strictly descending list every one of the first `m+1` elements is ≥ the one at index `m` -/
+theorem desc_take_ge (L : List Nat) (h : L.Pairwise (· > ·)) (m : Nat) (hm : m < L.length) :
+    ∀ y ∈ L.take (m + 1), L.getD m 0 ≤ y := by
+  induction L generalizing m with
+  | nil => simp at hm
+  | cons a L ih =>
+    have hs := (List.pairwise_cons.mp h).2
+    have hlt := (List.pairwise_cons.mp h).1
+    intro y hy
+    cases m with
+    | zero => simp at hy; simp [hy]
+    | succ m =>
+      simp only [List.length_cons] at hm
+      have hm' : m < L.length := by omega
+      simp only [List.take_succ_cons, List.mem_cons] at hy
+      simp only [List.getD_cons_succ]
+      rcases hy with hy | hy
+      · subst hy
+        have hmem : L.getD m 0 ∈ L := by
+          rw [getD_eq_get _ _ hm']; exact List.getElem_mem _
+        have := hlt _ hmem; omega
+      · exact ih hs m hm' y hy
+
+theorem getD_mem_take (L : List Nat) (m : Nat) (hm : m < L.length) : L.getD m 0 ∈ L.take (m+1) := by
+  rw [getD_eq_get _ _ hm]
+  rw [List.mem_take_iff_getElem]
+  exact ⟨m, by omega, rfl⟩
+
+theorem keys_getD (l : List Ent) (i : Nat) : (l.getD i default).key = (keys l).getD i 0 := by
+  induction l generalizing i with
+  | nil => rfl
+  | cons e rest ih =>
+    cases i with
+    | zero => rfl
+    | succ i => simp only [List.getD_cons_succ, keys, List.map_cons]; exact ih i
+
 end SwV.Lemmas.C05
